@@ -436,10 +436,10 @@ Theorem C12_map_keys_bytes_injective : forall compact score_bits (score_dom : Da
 Proof. exact mkey_bytes_inj. Qed.
 Print Assumptions C12_map_keys_bytes_injective.
 
-(* Map-level frame: every command of Data.Run.cmd (hash, set, zset, list, kv; both expiry policies) leaves
+(* Map-level frame: every command of Data.Run.cmd (hash, set, zset, list, kv, *EXPIRE/*PERSIST; both expiry policies) leaves
    the record of every (type, "table:key") it does not address unchanged *)
-Theorem C12_map_step_frame : forall compact ts c s,
-  let s' := fst (Data.Run.map_step compact ts c s) in
+Theorem C12_map_step_frame : forall compact now ts c s,
+  let s' := fst (Data.Run.map_step compact now ts c s) in
   (forall k, ~ In (hash_type, k) (cmd_targets c) -> rec_hash s' k = rec_hash s k) /\
   (forall k, ~ In (set_type, k) (cmd_targets c) -> rec_set s' k = rec_set s k) /\
   (forall k, ~ In (zset_type, k) (cmd_targets c) -> rec_zset s' k = rec_zset s k) /\
@@ -460,14 +460,14 @@ Print Assumptions C12_engine_functional.
 Theorem C12_engine_frame : forall compact score_bits (score_dom : Data.Base.score -> Prop),
   (forall s, score_dom s -> float_ok (score_bits s)) ->
   (forall a b, score_dom a -> score_dom b -> float_norm (score_bits a) = float_norm (score_bits b) -> a = b) ->
-  forall ts c s b v k, mkey_ok compact score_dom k -> mkey_bytes compact score_bits k = Some b ->
+  forall now ts c s b v k, mkey_ok compact score_dom k -> mkey_bytes compact score_bits k = Some b ->
   ~ In (mkey_owner k) (cmd_targets c) ->
   (engine compact score_bits score_dom s b v <->
-   engine compact score_bits score_dom (fst (Data.Run.map_step compact ts c s)) b v).
+   engine compact score_bits score_dom (fst (Data.Run.map_step compact now ts c s)) b v).
 Proof.
-  intros compact sb sd H1 H2 ts c s b v k Hk Eb Hn. split.
-  - now apply (engine_frame compact sb sd H1 H2 ts c s b v k).
-  - now apply (engine_frame_rev compact sb sd H1 H2 ts c s b v k).
+  intros compact sb sd H1 H2 now ts c s b v k Hk Eb Hn. split.
+  - now apply (engine_frame compact sb sd H1 H2 now ts c s b v k).
+  - now apply (engine_frame_rev compact sb sd H1 H2 now ts c s b v k).
 Qed.
 Print Assumptions C12_engine_frame.
 
